@@ -305,6 +305,19 @@ def _check(case, v):
                     want = e["mag"]
                 if not close(q.baseunits.magnitude * q.magnitude.value, want, 1e-12):
                     return v.fail("inside-factor", f"step {step}: {e['sym']} has factor {q.baseunits.magnitude!r}, registered {want!r}")
+                # ... and with an admitted prefix (the same symbol may have meant something else in an earlier scope)
+                pf = e.get("prefixes")
+                pf = ["k", "m"] if pf is True else (pf or [])
+                for p_ in pf[:2]:
+                    try:
+                        qp = Quantity(1, p_ + e["sym"])
+                    except Exception as ex:
+                        return v.fail("inside-unusable", f"step {step} ({what}): Quantity(1,{p_ + e['sym']!r}) raised {ex!r} "
+                                                         f"although {e['sym']} admits the prefix")
+                    wantp = want * R.PREFIX[p_] if hasattr(R, "PREFIX") else None
+                    if wantp is not None and not close(qp.baseunits.magnitude * qp.magnitude.value, wantp, 1e-12):
+                        return v.fail("inside-factor", f"step {step}: {p_ + e['sym']} has factor "
+                                                       f"{qp.baseunits.magnitude!r}, registered {wantp!r}")
         active = {s for _env, r, _e in stack for s, _ in r}
         for s in ever:
             if s in active or s in R.UNITS:
